@@ -28,11 +28,51 @@ func vC35FilterCall(p string) (passed bool, status int, panicked bool) {
 	return passed, w.Code, false
 }
 
+// vC35Q prints a byte string as a Gallina list, run-length encoding long periodic stretches (rp n unit):
+// coqc parses list literals slowly, and the long generated paths are repetitions.
+func vC35Q(s string) string {
+	if len(s) < 96 {
+		return cqBytes(s)
+	}
+	var parts []string
+	lit := 0
+	i := 0
+	for i < len(s) {
+		best, bestP := 0, 0
+		for p := 1; p <= 3 && i+p <= len(s); p++ {
+			j := i + p
+			for j < len(s) && s[j] == s[j-p] {
+				j++
+			}
+			if reps := (j - i) / p; reps >= 16 && reps*p > best {
+				best, bestP = reps*p, p
+			}
+		}
+		if best > 0 {
+			if lit < i {
+				parts = append(parts, cqBytes(s[lit:i]))
+			}
+			parts = append(parts, "rp "+cqZ(int64(best/bestP))+" "+cqBytes(s[i:i+bestP]))
+			i += best
+			lit = i
+		} else {
+			i++
+		}
+	}
+	if lit < len(s) {
+		parts = append(parts, cqBytes(s[lit:]))
+	}
+	if len(parts) == 1 && !strings.HasPrefix(parts[0], "rp ") {
+		return parts[0]
+	}
+	return "(" + strings.Join(parts, " ++ ") + ")"
+}
+
 func TestVerifC35Filter(t *testing.T) {
 	r := vNewRand(vSeed())
 	out := vOpenOut()
 	defer out.Close()
-	n := vN()
+	n := vN()/2 + 20
 	fixed := []string{"", "/", "//", "*", "x", "/x", "x/", "\\", "/\\", "\x00", "\xff/", "/\xff", " /", "%2F", ".", "..", "/.."}
 	alphabet := []byte("//..ab\n\x00\xff\\%*")
 	for i := 0; i < n; i++ {
@@ -61,7 +101,7 @@ func TestVerifC35Filter(t *testing.T) {
 		if !panicked && passed == (status == http.StatusBadRequest) {
 			t.Errorf("filter neither passed nor refused %q: status %d", p, status)
 		}
-		out.Case(cqApp("CFilter", cqBytes(p), cqBool(passed), cqBool(panicked)),
+		out.Case(cqApp("CFilter", vC35Q(p), cqBool(passed), cqBool(panicked)),
 			map[string]any{"func": "httpp.handlerFilterRequests", "path": p, "passed": passed, "status": status, "panic": panicked},
 			fmt.Sprintf("filter/%s/passed=%v", class, passed), passed)
 	}
